@@ -1495,6 +1495,47 @@ def flatten_const_dicts(fn_node) -> int:
     return count
 
 
+def _dotted_name(e) -> Optional[str]:
+    from .terms import dotted
+
+    return dotted(e)
+
+
+def split_elementwise_unpack(fn_node) -> int:
+    """``a, b, c = np.atleast_2d(x, y, z)`` (numpy returns one array per argument) -> ``a = np.atleast_2d(x)`` ... when the
+    targets are plain names and no target is read by a later argument (the call evaluates all arguments first)."""
+    count = 0
+    for node in ast.walk(fn_node):
+        for fld in ("body", "orelse", "finalbody"):
+            blk = getattr(node, fld, None)
+            if not (isinstance(blk, list) and blk and isinstance(blk[0], ast.stmt)):
+                continue
+            i = 0
+            while i < len(blk):
+                st = blk[i]
+                i += 1
+                if not (isinstance(st, ast.Assign) and len(st.targets) == 1 and isinstance(st.targets[0], (ast.Tuple, ast.List)) and isinstance(st.value, ast.Call)
+                        and _dotted_name(st.value.func) in ("np.atleast_1d", "np.atleast_2d", "np.atleast_3d", "numpy.atleast_2d", "numpy.atleast_1d") and not st.value.keywords):
+                    continue
+                tg, args = st.targets[0].elts, st.value.args
+                if len(tg) != len(args) or len(tg) < 2 or not all(isinstance(t, ast.Name) for t in tg) or any(isinstance(a, ast.Starred) for a in args):
+                    continue
+                ok = True
+                for k, t in enumerate(tg):
+                    for a in args[k + 1:]:
+                        if any(isinstance(n, ast.Name) and n.id == t.id for n in ast.walk(a)):
+                            ok = False
+                if not ok:
+                    continue
+                new = [ast.copy_location(ast.Assign(targets=[t], value=ast.Call(func=copy.deepcopy(st.value.func), args=[a], keywords=[])), st) for t, a in zip(tg, args)]
+                blk[i - 1:i] = new
+                i += len(new) - 1
+                count += 1
+    if count:
+        ast.fix_missing_locations(fn_node)
+    return count
+
+
 def fold_constant_tests(fn_node) -> int:
     """``if True: S`` -> S, ``if False: S else: T`` -> T, ``a if True else b`` -> a, and ``True and x`` / ``not False`` inside
     a test folded first: the shape a constant keyword argument (``move=True``) leaves behind once its helper is inlined."""
@@ -2390,6 +2431,8 @@ def normalise(prog: Program) -> Tuple[Program, List[str]]:
             log.append(f"{fn.qualname} (container aliases {', '.join(al)} expanded)")
         if body_hash(fn.node) not in _inventory()[1]:
             if fold_constant_tests(fn.node):
+                changed_alias = True
+            if split_elementwise_unpack(fn.node):
                 changed_alias = True
             if default_then_override(fn.node):
                 changed_alias = True
